@@ -1,5 +1,6 @@
 /- line-protocol driver over the models (imports nothing outside Lean core) -/
 import Gpv.Drv.Acc
+import Gpv.Drv.P2
 open Gpv Gpv.Drv
 
 structure DSt where
@@ -13,6 +14,7 @@ def dispatch (st : DSt) (line : String) : DSt × List String :=
     if w.startsWith "acc." then
       let (a, out) := accStep st.acc ws
       ({ st with acc := a }, out)
+    else if w.startsWith "p2f." || w.startsWith "p2q." then (st, p2Dispatch ws)
     else if w = "#" then (st, [])
     else (st, ["bad-op"])
 
